@@ -1,5 +1,5 @@
 """C04 / C05 / C14 — contracts on pdb2pqr/debump.py (torsion moves) and residue.rotate_tetrahedral."""
-from pyvc.api import (Bool, Const, DictOf, Enum, Int, Items, ListOf, Loop, Named, NpVec, Obj, OneOf, Opt, Real, Ref,
+from pyvc.api import (Bool, Const, DictOf, Enum, Int, Items, ListOf, Loop, Named, NpVec, Obj, OneOf, Opt, Raises, Real, Ref,
                       Str, TupleOf, contract, harness, implies, forall, iff, exists)
 
 BIND = {}
@@ -119,4 +119,48 @@ contract(
     modifies=[],
     name="debump_residue",
     native=False,
+)
+
+
+# ---------------------------------------------------------------- debump_biomolecule: the preconditions of every torsion move
+# set_dihedral_angle (above) is right GIVEN a cell list in which every atom is registered, atom ranks (refdistance) and
+# stored torsions that are up to date.  The driver of the pass establishes all three before the first residue is looked at,
+# moves nothing itself, and only ever hands amino-acid residues with conflicts to debump_residue.
+def calls_before(first, later):
+    ok = True
+    for a in calls_of(first):
+        for b in calls_of(later):
+            ok = ok and a.index < b.index
+    return ok
+
+
+contract(
+    "pdb2pqr.debump:Debump.debump_biomolecule", ["C04", "C14", "C15"],
+    params={"self": Obj("pdb2pqr.debump:Debump", cells=Const(None), biomolecule=Obj(
+        "pdb2pqr.biomolecule:Biomolecule", residues=Items(Named("ra", Obj("pdb2pqr.aa:LYS", name=Const("LYS"))),
+                                                          Named("rw", Obj("pdb2pqr.aa:WAT", name=Const("HOH"))),
+                                                          Named("rb", Obj("pdb2pqr.aa:SER", name=Const("SER"))))))},
+    requires=[],
+    ensures=[
+        "len(calls_of('Cells')) == 1 and len(calls_of('assign_cells')) == 1 and self.cells is calls_of('Cells')[0].ret",
+        "calls_of('assign_cells')[0].args['self'] is self.cells and calls_of('assign_cells')[0].args['biomolecule'] is self.biomolecule",
+        "len(calls_of('calculate_dihedral_angles')) == 1 and len(calls_of('set_reference_distance')) == 1",
+        "calls_before('assign_cells', 'find_residue_conflicts') and calls_before('assign_cells', 'debump_residue')",
+        "calls_before('calculate_dihedral_angles', 'debump_residue') and calls_before('set_reference_distance', 'debump_residue')",
+        "calls_before('update_internal_bonds', 'set_reference_distance')",
+        # only amino-acid residues, each looked at once, debumped only with its own non-empty conflict list
+        "len(calls_of('find_residue_conflicts')) == 2",
+        "forall(calls_of('debump_residue'), lambda c: (c.args['residue'] is ra or c.args['residue'] is rb) and len(c.args['conflict_names']) > 0)",
+        "len(calls_of('debump_residue')) <= 2",
+    ],
+    raises={"ValueError": "True"},
+    trace={"pdb2pqr.cells:Cells": Obj("pdb2pqr.cells:Cells"), "pdb2pqr.cells:Cells.assign_cells": None,
+           "pdb2pqr.biomolecule:Biomolecule.calculate_dihedral_angles": None,
+           "pdb2pqr.biomolecule:Biomolecule.set_donors_acceptors": None,
+           "pdb2pqr.biomolecule:Biomolecule.update_internal_bonds": None,
+           "pdb2pqr.biomolecule:Biomolecule.set_reference_distance": Raises(None, "ValueError"),
+           "pdb2pqr.debump:Debump.find_residue_conflicts": OneOf(Items(), Items(Const("CG"))),
+           "pdb2pqr.debump:Debump.debump_residue": Bool},
+    modifies=["self.cells"],
+    name="debump_biomolecule", native=False,
 )
